@@ -55,6 +55,10 @@ type SubOpts struct {
 	Once, Async, Sequential bool
 	Filter                  int // 0 none, 1 even ids only, 2 reject all
 	Ctx                     bool
+	// Reversed gives the options to Subscribe in the opposite order (filter, Sequential,
+	// Async, Once instead of Once, Async, Sequential, filter): the order of options is not
+	// supposed to matter.
+	Reversed bool
 }
 
 // TypeOps is the ebu API instantiated for one pooled type.
@@ -115,6 +119,11 @@ func mkOps[T Ev](idx int) *TypeOps {
 				return false
 			}))
 		}
+		if o.Reversed {
+			for i, j := 0, len(l)-1; i < j; i, j = i+1, j-1 {
+				l[i], l[j] = l[j], l[i]
+			}
+		}
 		return l
 	}
 	return &TypeOps{
@@ -153,6 +162,11 @@ func mkOps[T Ev](idx int) *TypeOps {
 			}
 			if filter != nil {
 				l = append(l, eventbus.WithFilter(func(e T) bool { return filter(e.GetID()) }))
+			}
+			if o.Reversed {
+				for i, j := 0, len(l)-1; i < j; i, j = i+1, j-1 {
+					l[i], l[j] = l[j], l[i]
+				}
 			}
 			if o.Ctx {
 				fn := eventbus.ContextHandler[T](func(ctx context.Context, e T) { body(ctx, e.GetID()) })
